@@ -81,7 +81,7 @@ def generate(rng, index, tier):
                 extra.append(worlds.op_single(rng, 'MACH_MKRUNNABLE'))
             if rng.chance(0.15):
                 extra.append({'k': 'raw', 'id': 0x25020014, 'q': 0, 'a': rng.words()})   # PERF_STK_KData: kernel stack words
-            ops.append(worlds.op_sample(rng, flags=flags, thd=(77, 500 + si) if rng.chance(0.3) else None, uhdr=uhdr,
+            ops.append(worlds.op_sample(rng, flags=flags, thd=(77, rng.pick([500 + si, 400, 501 - si, 31337])) if rng.chance(0.4) else None, uhdr=uhdr,
                                         udata=rows, extra=extra))
             if rng.chance(0.2):
                 ops.append(worlds.op_single(rng, 'MACH_MKRUNNABLE'))
@@ -90,7 +90,8 @@ def generate(rng, index, tier):
     per = kernel.expand_threads(threads, ids)
     shape = rng.pick(['sensitive', 'uniform', 'uniform', 'bursty', 'rr1', 'serial'])
     sched = draw_sensitive(rng, per, tool.codes()) if shape == 'sensitive' else kernel.draw_schedule(rng, per, shape)
-    return {'threads': threads, 'schedule': sched, 'via_file': rng.chance(0.25), 't0': (rng.randrange(1, 1 << 40) << 8) | 1}
+    return {'threads': threads, 'schedule': sched, 'via_file': rng.chance(0.25), 't0': (rng.randrange(1, 1 << 40) << 8) | 1,
+            'tsmode': worlds.draw_tsmode(rng, ties=False)}
 
 
 def _words_to_uuid(a):
